@@ -11,7 +11,7 @@
 # VERIF_SERVER_SRC = tree to build (default /repo; both the H3 hook commit and the fix: commit must be in it)
 # VERIF_C31_DISC   = fifo (default: the repaired code) | spawn (the pinned code; only to reproduce the defect)
 # VERIF_C31_STEP_MS= distance between two scheduled delays (default 20)
-import itertools, json, os, random, subprocess
+import itertools, json, os, random, re, subprocess
 import vlib
 from checks.common import *
 
@@ -23,6 +23,7 @@ META = dict(
                "C31_fifo_order — for every log with increasing indices and every event list (any Commit calls, any scheduler choices RunTask i, any timing of MarkExecuted, no restart) the executed trace is a prefix of the log: "
                "strictly increasing index order, each index at most once, equal to the committed entries minus the queued ones; C31_fifo_traces_comparable / C31_fifo_same_state — the traces of two nodes are prefix-comparable and nodes "
                "that executed the same committed entries reach the same state for every apply function; C31_once — both disciplines, no restart: each index at most once and only committed entries; "
+               "C31_fifo_restart_order — with restarts the trace of the single worker stays weakly increasing (the only repetition is the entry pending at the crash, re-executed before anything later runs); "
                "C31_once_restart / C31_once_one_crash / C31_marked_never_again / C31_fifo_one_pending — the exact bound across restarts: an index is executed at most 1 + (number of restarts at which its exec step had run but "
                "log_executed had not), an entry marked executed is never executed again, and the single worker has at most one such entry per crash (at-least-once / at-most-twice across one crash; bound attained: C31_restart_bound_attained). "
                "The pinned code (one tokio::spawn per entry) is REFUTED by C31_spawn_refuted (Commit 2; RunTask 2; RunTask 1 executes 2 before 1) and proved only for the complement of the class "
@@ -132,11 +133,12 @@ def run_batch(exe, wdir, batch):
         out = (e.stdout or b"").decode("utf-8", "replace") + "\nTIMEOUT"
     res = {}
     for line in out.splitlines():
-        w = line.split()
-        if len(w) >= 2 and w[0] in ("ORDER", "EFFECT", "UNEXECUTED") and w[1].isdigit():
-            local = int(w[1])
+        # with --nocapture libtest prints "test verif::c31 ... " in front of the first line
+        m = re.search(r"\b(ORDER|EFFECT|UNEXECUTED) (\d+)((?: \d+)*)\s*$", line)
+        if m:
+            local = int(m.group(2))
             if local < len(batch):
-                res.setdefault(batch[local][0], {})[w[0]] = [int(x) for x in w[2:]]
+                res.setdefault(batch[local][0], {})[m.group(1)] = [int(x) for x in m.group(3).split()]
     return res, out
 
 
